@@ -161,6 +161,9 @@ def run(ctx):
     try:
         for name, text in gen_inputs(ctx):
             settings = SETTINGS if (not ctx.quick() or name in ("3SGB-subset", "conf-alt-AB-mutant")) else rnd.sample(SETTINGS, 3)
+            if name == "1HPX" and (["-d"], {}) not in settings:
+                # 1HPX has a non-covalently coupled pair (ASP 25 A / ASP 25 B): the persistent alternative-state swap of -d
+                settings = settings + [(["-d"], {})]
             for args, over in settings:
                 a = list(args)
                 if over:
